@@ -465,7 +465,18 @@ class GhostList:
     def append(self, x):
         self.appended.append(x)
 
+    def extend(self, xs):
+        self.appended.extend(list(xs))
+
+    def __iadd__(self, xs):
+        if not isinstance(xs, list):
+            raise GhostUnsupported(f"+= of a non-list on the opaque list {self._name}")
+        self.appended.extend(xs)
+        return self
+
     def __getattr__(self, a):
+        if a.startswith("__"):
+            raise AttributeError(a)
         raise GhostUnsupported(f"operation .{a} on the opaque list {self._name}")
 
     def __iter__(self):
